@@ -492,6 +492,45 @@ def earlier_session(res, sp):
     shutil.rmtree(work, True)
 
 
+def emptied_tree_session(res, sp):
+    """an earlier run recorded the same span; its data files were expired since (a ring buffer, a clean-up script)
+    and the timestamp subdirectories are still there, empty.  The recorder runs again: a reader opened before it and
+    a fresh one see everything once it is closed"""
+    work = common.scratch_dir("c09emptied-")
+    top = os.path.join(work, "top")
+    P.run_writer(sp, top)
+    removed = 0
+    for f, _h in P.tree_digest(top).items():
+        if P.is_final_data(f):
+            os.remove(os.path.join(top, f))
+            removed += 1
+    inp = {"recording": sp["name"], "spec": sp, "label": "recorded-again-into-emptied-subdirectories"}
+    try:
+        old, _seen0 = P.reader_pass(top, sp)
+    except Exception as e:  # noqa
+        res.violation("reader-fails-after-close", "a reader fails on a channel whose data files were all removed", inp,
+                      "no samples", repr(e)[:200])
+        old = None
+    outc, rc, err = P.run_writer(sp, top)
+    res.count("emptied_tree_session_checked")
+    if rc != 0 or any(not o["ok"] for o in outc):
+        res.disagree("recording again into the emptied subdirectories did not complete", inp, "ok", outc[-4:])
+        return
+    for name, rd in (("long-lived", old), ("fresh", None)):
+        if name == "long-lived" and old is None:
+            continue
+        try:
+            _r, seen = P.reader_pass(top, sp, reader=rd)
+        except Exception as e:  # noqa
+            res.violation("reader-fails-after-close", "a %s reader fails after the second run was closed" % name, inp,
+                          "all samples", repr(e)[:200])
+            continue
+        if not (seen == P.written(sp)):
+            res.violation("not-all-visible-after-close", "after a recorder that wrote into subdirectories emptied since an earlier "
+                          "run is closed, a %s reader does not see everything" % name, inp, P.written(sp).brief(), seen.brief())
+    shutil.rmtree(work, True)
+
+
 def run(res):
     common.use_impl()
     res.rule = ("one case = one point between two file-system operations of a single-stepped real writer, at which a "
@@ -520,6 +559,7 @@ def run(res):
                 P.restart_after_kill(res, sp, i, tmp_rel, later, concurrent=True)
         later_session(res, sp)
         earlier_session(res, sp)
+        emptied_tree_session(res, sp)
         res.sample({"recording": sp["name"], "ops": b.n,
                     "props_variant": {0: "Direct", 1: "Staged", None: "none"}[b.vp]})
         shutil.rmtree(b.work, True)
@@ -573,6 +613,27 @@ def replay(res, rp):
         _r, seen = P.reader_pass(top, sp, reader=old)
         print("the first reader saw", seen1.brief(), "and now sees", seen.brief())
         bad = bool(changed) or not seen1.subset_of(seen)
+        print("replay verdict:", "STILL VIOLATING" if bad else "no longer violating")
+        return 1 if bad else 0
+    if sp and inp.get("label") == "recorded-again-into-emptied-subdirectories":
+        work = common.scratch_dir("c09replay-")
+        top = os.path.join(work, "top")
+        P.run_writer(sp, top)
+        for f, _h in P.tree_digest(top).items():
+            if P.is_final_data(f):
+                os.remove(os.path.join(top, f))
+        print("first run recorded and its data files removed; subdirectories left:", P.tree_dirs(top))
+        outc, rc, err = P.run_writer(sp, top)
+        print("second run outcomes:", [(o["call"], o["ok"]) for o in outc])
+        print("files:", P.tree_files(top))
+        bad = 0
+        try:
+            _r, seen = P.reader_pass(top, sp)
+            print("a fresh reader sees", seen.brief(), "; written", P.written(sp).brief())
+            bad += 0 if seen == P.written(sp) else 1
+        except Exception as e:  # noqa
+            print("a fresh reader raises", repr(e))
+            bad += 1
         print("replay verdict:", "STILL VIOLATING" if bad else "no longer violating")
         return 1 if bad else 0
     if sp and inp.get("label") == "later-session-refused-then-later-period":
